@@ -43,6 +43,9 @@ func loadPkgs(mode packages.LoadMode, tests bool, patterns ...string) []*package
 	if len(patterns) == 1 && patterns[0] == "./pub" && os.Getenv("VERIF_NO_INLINE") == "" {
 		cfg.Overlay = pubOverlay()
 	}
+	if len(patterns) == 1 && (patterns[0] == "./streams" || patterns[0] == "./streams/...") && os.Getenv("VERIF_NO_INLINE") == "" {
+		cfg.Overlay = streamsOverlay()
+	}
 	if tags := os.Getenv("VERIF_TAGS"); tags != "" {
 		cfg.BuildFlags = []string{"-tags=" + tags}
 	}
@@ -67,6 +70,19 @@ func loadPkgs(mode packages.LoadMode, tests bool, patterns ...string) []*package
 	return pkgs
 }
 
+var streamsOverlayDone bool
+var streamsOverlayMap map[string][]byte
+
+// streamsOverlay: the same for the hand-written and generated files of package streams itself
+// (Serialize, the resolvers): newly declared named functions are expanded where they are called.
+func streamsOverlay() map[string][]byte {
+	if !streamsOverlayDone {
+		streamsOverlayDone = true
+		streamsOverlayMap = inlineOverlay("streams", knownStreamsFuncs, true)
+	}
+	return streamsOverlayMap
+}
+
 var pubOverlayDone bool
 var pubOverlayMap map[string][]byte
 
@@ -75,7 +91,7 @@ var pubOverlayMap map[string][]byte
 func pubOverlay() map[string][]byte {
 	if !pubOverlayDone {
 		pubOverlayDone = true
-		pubOverlayMap = inlineOverlay("pub", knownPubFuncs)
+		pubOverlayMap = inlineOverlay("pub", knownPubFuncs, false)
 	}
 	return pubOverlayMap
 }
